@@ -161,7 +161,8 @@ def _cfg_names(tier):
         seen = set()
         sel = []
         for (s, u, kind) in names:
-            if kind == 'enum' or u not in seen:
+            special = kind == 'alias' and (s != s.lower() or not s.isascii())      # written with capitals / symbols in the table
+            if kind == 'enum' or u not in seen or special:
                 sel.append((s, u, kind))
                 if kind == 'alias':
                     seen.add(u)
